@@ -397,6 +397,27 @@ pub fn gen_graph_project(rng: &mut Rng, tier: Tier, ptr: usize) -> Project {
                 };
                 p.modules[m].extra_uses.push(line);
             }
+            // Sometimes one of the owner's own virtual functions mentions the vftable type.
+            if rng.chance(1, 4) {
+                fn_counter += 1;
+                let f = Func {
+                    vis: true,
+                    name: format!("f{fn_counter}"),
+                    recv: Some(false),
+                    args: vec![("own_table".into(), Ty::Name(vname.clone()).cptr())],
+                    ret: rng.chance(1, 2).then(|| Ty::Name(vname.clone()).cptr()),
+                    address: None,
+                    index: None,
+                    cc: None,
+                    doc: None,
+                };
+                if let ItemKind::Type { vftable: Some(v), .. } = &mut p.items[t].kind {
+                    v.funcs.push(f.clone());
+                }
+                if let Some(vs) = &mut p.items[t].vslots {
+                    vs.push(f);
+                }
+            }
             let idx = p.items.len();
             // Sometimes the owner itself embeds the type that points at its vftable type: as a
             // plain field or as a base. Still no by-value cycle (the mention is a pointer).
